@@ -22,7 +22,7 @@ assert rc == 0, out
 res = {"seed": seed}
 try:
     demo = open(os.path.join(seed, "demo.py")).read()
-    demo = re.sub(r"/tmp/w(?:[t23456789]|10|11|12)_[A-Za-z0-9_]+", wt, demo)
+    demo = re.sub(r"/tmp/w(?:[t23456789]|10|11|12|13)_[A-Za-z0-9_]+", wt, demo)
     demo = re.sub(r'(sys\.path\.insert\(0, *)"/repo"', r'\1"' + wt + '"', demo)
     open(os.path.join(wt, "_demo.py"), "w").write(demo)
     res["demo_clean_exit"], o1 = sh("/venv/bin/python _demo.py", cwd=wt)
@@ -63,7 +63,7 @@ if keep:
     os.makedirs(dst, exist_ok=True)
     if os.path.abspath(dst) != seed:
         shutil.copy(os.path.join(seed, "patch.diff"), dst)
-        open(os.path.join(dst, "demo.py"), "w").write(re.sub(r"/tmp/w(?:[t23456789]|10|11|12)_[A-Za-z0-9_]+", "/repo", open(os.path.join(seed, "demo.py")).read()))
+        open(os.path.join(dst, "demo.py"), "w").write(re.sub(r"/tmp/w(?:[t23456789]|10|11|12|13)_[A-Za-z0-9_]+", "/repo", open(os.path.join(seed, "demo.py")).read()))
     meta = {}
     try:
         meta = json.load(open(os.path.join(seed, "meta.json")))
